@@ -88,8 +88,9 @@ def _c05(ctx):
 
 def _c10(ctx):
     # binary array I/O lives in Utility.hpp but is not text parsing (it is decided under C13)
+    from .rules import tool
     ctx.exclude_q = {'GeographicLib::Utility::readarray', 'GeographicLib::Utility::writearray'}
-    return _exc_rules(ctx, 'C10')
+    return _exc_rules(ctx, 'C10') + [tool.rule_TOOL(ctx)]
 
 
 def _c18(ctx):
@@ -173,7 +174,11 @@ def _c12(ctx):
                'line classes, no value that is initialised only under a capability bit, the exact flag or Init() reaches '
                'an output argument, a return value, a branch condition or an array index unless the path establishes it',
                None, 150)
-    return [m1, m2, m4, lic]
+    from .rules import licrules
+    m4c, nf2, nc2 = licrules.rule_clients(ctx, [NSP + c for c in ('Geodesic', 'GeodesicExact', 'GeodesicLine',
+                                                                  'GeodesicLineExact', 'Rhumb', 'RhumbLine')], 'M5')
+    m4c.floor('solver-internal call sites of gated functions', nc2, 50)
+    return [m1, m2, m4, lic, m4c]
 
 
 def _c09(ctx):
@@ -200,6 +205,15 @@ def _c08(ctx):
     return [p1, poly.rule_P2(ctx), poly.rule_P3(ctx), poly.rule_P4(ctx), poly.rule_P5(ctx)]
 
 
+def _c17(ctx):
+    from .rules import licrules
+    r, nf, nc = licrules.rule_clients(ctx, [NSP + c for c in ('AzimuthalEquidistant', 'Gnomonic', 'CassiniSoldner',
+                                                              'Intersect')], 'M4c')
+    r.floor('client functions with solver calls', nf, 7)
+    r.floor('solver / line call sites', nc, 11)
+    return [r]
+
+
 def _c20(ctx):
     from .rules import cache, eff, exc
     k = cache.rule_K(ctx)
@@ -223,6 +237,7 @@ CHECKS = {
     'C12': _c12,
     'C09': _c09,
     'C15': _c15,
+    'C17': _c17,
     'C04': _c04,
     'C05': _c05,
     'C10': _c10,
